@@ -437,7 +437,7 @@ RULE = ("One `map` case = one extents object (index type, static/dynamic pattern
         "uniqueness precondition for every such shape (rank 2: also as the nested mapping of layout_transpose<layout_stride>); "
         "a stride line also reports required_span_size, is_exhaustive, mdarray "
         "over the strided mapping, operator== against the layout_left / layout_right mappings of the same extents and "
-        "against strided mappings over dextents<int64_t> with equal / different strides, and the strides and extents "
+        "against strided mappings over dextents<int64_t> with equal / different strides (other index types: `seq`), and the strides and extents "
         "produced by the converting constructors; an `ext` line also compares the object with extents of another type "
         "(equal, one value changed, other rank). `mda`: one line per shape and layout (left, right, stride): every mdarray "
         "constructor -- (mapping), (extents), (exts...), (mapping|extents, value), (mapping|extents, container const&), "
@@ -449,6 +449,20 @@ RULE = ("One `map` case = one extents object (index type, static/dynamic pattern
         "index-pair slices (etl::pair, tuple, array<_,2> with run-time bounds; pair of integral constants; one static "
         "bound), every F/I/P/C vector of rank 1-2 and sampled vectors of rank 3-4, every dynamic value 0..4, all (one pair) or "
         "sampled lo <= hi <= extent. "
+        "An `mda` line also builds a SECOND object of the same type over another mapping (other values at every dynamic extent, "
+        "other strides for layout_stride -- also over fully static extents) with another container and reports, after swap(x, y), "
+        "copy construction, move construction, copy assignment and move assignment (static_vector container) and swap "
+        "(etl::array container), the extents and strides each object reports and len/sum/weighted sum of the elements read "
+        "through operator(). `seq`: layout_stride::mapping::operator== between mappings of DIFFERENT index types and extents "
+        "types (16 type pairs: uint8/int8/int16/uint16/int32/uint32/int64 in both roles, static / mixed / dynamic patterns, rank "
+        "0-4), both operand orders and operator!=, against a strided mapping (same strides; one stride larger by a multiple of "
+        "2^bits of the narrower index type, i.e. equal after a cast; +1; +2^bits-1; another dynamic extent) and against the "
+        "layout_left / layout_right mapping of the same extents (random strides, the strides of that layout, and -- over an empty "
+        "index space with extents up to the maximum of the narrow type -- strides congruent to them modulo 2^bits); oracle: "
+        "extents equal and strides equal as integers. `dflt`: the default-constructed layout_left / layout_right / "
+        "layout_stride mapping of every instantiated extents type (static, mixed, all-dynamic, rank 0-4, eight index types): "
+        "extents, strides, required_span_size, every offset, is_exhaustive, operator== of the strided one against the other two, "
+        "copy / assignment of the mapping and the mappings held by default-constructed mdspan / mdarray objects. "
         "`conv`: every (target mask, source mask) pair over seven value vectors, three index type pairs. `span`: "
         "every (length 0..6, static or dynamic extent, first/last/subspan, run-time and template arguments, offset, count "
         "incl. dynamic_extent) within the preconditions, against std::span. A case is non-trivial when the index space has "
@@ -464,6 +478,9 @@ ASSUMPTIONS = ["libstdc++ 12 has no <mdspan>: the C++-side oracle is the enumera
                "element type is int; accessor is default_accessor; mdarray containers are static_vector<int,256> (2048 over "
                "strided mappings in `map` lines) and etl::array<int,260>; mdarray constructors are exercised for shapes whose "
                "required_span_size is at most 256 (precondition: the container can hold required_span_size elements)",
+               "`seq` lines: both mappings satisfy the preconditions of their constructors (extents, strides and required span "
+               "size representable in the mapping's own index type, strides unique); the two index types differ, so a stride "
+               "of the wider mapping need not be representable in the narrower type -- operator== has no such precondition",
                "submdspan_extents: pair slices satisfy 0 <= lo <= hi <= extent ([mdspan.sub.extents] precondition); "
                "strided_slice is a static_assert in the library (not provided) and submdspan itself is commented out",
                "three compile probes (PROBES in checks/props/c19.py) switch constructs whose loss would stop the harness from "
@@ -810,7 +827,8 @@ LEVEL_TEXT = ("extents (constructors, converting constructor, extent, operator==
               "layout_right and layout_stride), submdspan_extents for full_extent / index / index-pair slices, mdspan / "
               "mdarray element access, extents(), size, empty, operator[](array|span), to_mdspan, container_size, the mdarray "
               "constructors (mapping | extents | exts..., with value, container const&, container&&; size-constructible and "
-              "etl::array containers) and span first/last/subspan are modelled clause by clause "
+              "etl::array containers), mdarray copy / move construction, copy / move assignment and swap (an object = mapping + "
+              "container), the default constructors of the three mappings and span first/last/subspan are modelled clause by clause "
               "with checked array accesses and explicit index_type casts. Lean 4 proves for every rank, every extents vector "
               "and every static/dynamic pattern (no bound) that the model never leaves an array, that the offset of an "
               "in-range multi-index equals the closed form (mixed radix for left, right, transposed; sum of index*stride for "
@@ -824,7 +842,12 @@ LEVEL_TEXT = ("extents (constructors, converting constructor, extent, operator==
               "transposed strided mapping is exhaustive iff the nested one is, that mdspan/mdarray access over all layouts "
               "reads exactly buffer[offset], that after each mdarray constructor the container holds required_span_size "
               "(etl::array: its static size) value-initialised elements / copies of the value / the given container's contents "
-              "and operator() reads the element at the closed-form offset, that size() is the exact product of the extents "
+              "and operator() reads the element at the closed-form offset, that after swap(a, b) each mdarray reports the extents "
+              "and strides of the other and reads the other's container at the other's offsets (layout_stride: also over fully "
+              "static extents; layout_left/right: the dynamic extents), likewise after assignment and copy / move construction, "
+              "that layout_stride::operator== is true exactly when extents and strides are equal as integers for any two index "
+              "types, that a default-constructed layout_stride mapping has the default extents and the strides of the "
+              "default-constructed layout_right mapping and compares equal to it, that size() is the exact product of the extents "
               "and empty() holds iff an extent is 0 under the standard's precondition alone (size representable in size_type), "
               "that submdspan_extents keeps exactly the kept dimensions with their static extents and gives an index pair "
               "the extent hi - lo (static for a pair of integral constants), and that span "
@@ -846,15 +869,20 @@ LEVEL_NOTE = ("Trusted: Lean kernel + propext/Classical.choice/Quot.sound; the h
               "Span: the model returns a precondition error for Count > size() where the code has no run-time check. "
               "mdarray constructors: proved for the two container kinds the harness uses (constructible from size_t / "
               "(size_t, value), and etl::array), under the precondition that the container can hold required_span_size() "
-              "elements; the moved-from state of a container&& argument is not described. submdspan_extents with a "
+              "elements; the moved-from state of a container&& argument or of a moved-from mdarray is not described; the mdarray "
+              "object theorems are about a model with two fields (mapping, container) whose operations are member-wise by "
+              "construction -- what they add is that reads through the resulting object use the mapping that travelled with "
+              "the container; that the real swap / assignment touch BOTH members is established by the `mda` lines only. submdspan_extents with a "
               "strided_slice is a static_assert in the library and submdspan / submdspan_mapping are commented out: nothing "
               "to verify there. "
               "Members listed in "
               "coverage.correspondence_only are compared on every run but have no theorem.")
 CORRESPONDENCE_ONLY = [
-    "mdarray copy / move construction, copy assignment, swap, extract_container, mapping(), stride(r), extent(r), "
-    "operator[](array|span), the conversion operators to mdspan and the deduction guide mdspan(mdarray): exercised on every "
-    "`mda` line against the pointer-arithmetic oracle (folded into the misc= flag), not modelled",
+    "mdarray extract_container, mapping(), stride(r), extent(r), operator[](array|span), the conversion operators to mdspan and "
+    "the deduction guide mdspan(mdarray): exercised on every `mda` line against the pointer-arithmetic oracle (folded into the "
+    "misc= flag), not modelled (copy / move construction, assignment and swap ARE modelled: MdArr, mdarray_swap_stride_eq ...)",
+    "the default constructors of mdspan and mdarray (rank_dynamic() > 0) and copy construction / assignment of a "
+    "layout_stride mapping: compared with the default-constructed mappings on every `dflt` line (obj= flag), no model function",
     "the forwards of the six observers by mdspan and mdarray (one-line members): compared with the mapping's own answers on "
     "every map line (last bit of obs=); the theorems are about the mapping's observers",
     "mdspan constructors other than (pointer, mapping): (pointer, exts...) / (pointer, span) / (pointer, array) with rank() and "
